@@ -17,6 +17,7 @@ CONSTANTS
   AllowIoError = TRUE
   AllowResume = TRUE
   ForgetUncreated = TRUE
+  LockPerName = FALSE
   MaxInterrupts = 2
 INVARIANT TypeOK
 INVARIANT Inside
